@@ -185,7 +185,14 @@ def evaluator_for(prog: Program, cls_name: str, sc: StubContext, max_steps: int 
     ev.globals.update({"type": type_, "print": lambda *a, **k: None, "list": list, "tuple": tuple, "set": set, "dict": dict,
                        "str": str, "repr": repr, "enumerate": lambda x, start=0: list(enumerate(ev.iterate(x), start)),
                        "reversed": lambda x: list(reversed(ev.iterate(x))), "zip": lambda *x: list(zip(*x)),
-                       "abs": abs, "ord": ord, "chr": chr})
+                       "abs": abs, "ord": ord, "chr": chr, "next": next, "iter": lambda x: iter(ev.iterate(x)),
+                       "filter": lambda f, x: [y for y in ev.iterate(x) if (f(y) if f is not None else y)],
+                       "map": lambda f, *xs: [f(*a) for a in zip(*[ev.iterate(x) for x in xs])]})
+    ev.modules.setdefault("itertools", {}).update({
+        "filterfalse": lambda f, x: iter([y for y in ev.iterate(x) if not (f(y) if f is not None else y)]),
+        "chain": lambda *xs: [y for x in xs for y in ev.iterate(x)],
+        "takewhile": lambda f, x: __import__("itertools").takewhile(f, ev.iterate(x)),
+        "dropwhile": lambda f, x: __import__("itertools").dropwhile(f, ev.iterate(x))})
     return ev
 
 
@@ -199,3 +206,13 @@ def run_rule(prog: Program, cls_name: str, sc: StubContext, method: str = "run",
     ev = evaluator_for(prog, cls_name, sc, max_steps)
     me = Obj(cls_name, context=sc.obj, name=cls_name)
     return ev.invoke(m.node, [me, sc.obj] + list(extra_args), {})
+
+
+def default_object(prog: Program, cls_name: str, sc: "StubContext", args: Sequence = ()) -> Obj:
+    """An instance stub whose attributes are those the class's own __init__ (interpreted) gives it."""
+    ev = evaluator_for(prog, cls_name, sc)
+    me = Obj(cls_name)
+    init = prog.method(cls_name, "__init__")
+    if init is not None:
+        ev.invoke(init.node, [me] + list(args), {})
+    return me
